@@ -91,6 +91,11 @@ type c17Value struct {
 	// the same): the font box written for it must not depend on the order in which
 	// the glyphs are visited
 	oddBoxAFM []byte
+	// font files whose charstrings are broken in the ways for which the reader has
+	// fixed error values (the error text is part of the result), and a font whose
+	// glyph names are not writable (or collide once made writable)
+	brokenFonts [][]byte
+	oddNames    *type1.Font
 	// font files that register more than one entry in the font directory
 	multiFont [][]byte
 	// histFont is a different font that some child processes write BEFORE they
@@ -243,6 +248,23 @@ func genC17Value(c *rt.C, quick bool) c17Value {
 			}
 		}
 	}
+	for _, raw := range [][]byte{
+		{139, 139 + 50, 13, 255, 0, 0},                   // a number cut short
+		{139, 139 + 50, 13, 139 + 1, 5, 14},              // rlineto with one operand
+		append(bytes.Repeat([]byte{139 + 1}, 30), 5, 14), // more operands than the stack holds
+	} {
+		bw := &ref.WFont{FontName: "Broken", Info: map[string]string{}, Private: map[string]string{}, StdEncoding: true,
+			Glyphs: []*ref.WGlyph{{Name: ".notdef", Den: 1, WX: 500}, {Name: "A", Den: 1, Raw: raw}, {Name: "B", Den: 1, Raw: raw}}}
+		v.brokenFonts = append(v.brokenFonts, ref.RenderType1(rng, bw, &ref.WLayout{Container: "plain", LenIV: 4}))
+	}
+	v.oddNames = genFont(rng, &fontOpts{maxGlyphs: 4})
+	for i, n := range []string{"f i", "f_i", "f(i", "f\ti"} {
+		g := &type1.Glyph{WidthX: float64(500 + i)}
+		g.MoveTo(float64(10*i), 0)
+		g.LineTo(float64(100+i), float64(200+7*i))
+		g.ClosePath()
+		v.oddNames.Glyphs[n] = g
+	}
 	// a font file with seac composites, including a composite of a composite
 	mf := genModelFontOpt(rng, true)
 	mf.lay.Container = "pfa"
@@ -272,6 +294,23 @@ func c17Digests(v c17Value) []string {
 	}
 	f3, err := type1.Read(bytes.NewReader(v.seacPFA))
 	out = append(out, fmt.Sprintf("type1.Read/seac %s err=%v", fontDigest(f3), err))
+	for i, bf := range v.brokenFonts {
+		_, err := type1.Read(bytes.NewReader(bf))
+		out = append(out, fmt.Sprintf("type1.Read/broken-charstring-%d err=%v", i, err))
+	}
+	for _, fm := range allFormats {
+		var ob bytes.Buffer
+		var werr error
+		func() {
+			defer func() {
+				if p := recover(); p != nil {
+					werr = fmt.Errorf("panic: %v", p)
+				}
+			}()
+			werr = v.oddNames.Write(&ob, &type1.WriterOptions{Format: fm.f})
+		}()
+		out = append(out, fmt.Sprintf("Font.Write/odd-names/%s %s err=%v", fm.name, sha(ob.Bytes()), werr))
+	}
 	for i, mfile := range v.multiFont {
 		f4, err := type1.Read(bytes.NewReader(mfile))
 		out = append(out, fmt.Sprintf("type1.Read/several-fonts-%d %s err=%v", i, fontDigest(f4), err))
